@@ -41,7 +41,7 @@ class C05Runner(HistoryRunner):
 			return
 		trace = rec.get('trace', [])
 		if not enabled:
-			io = [ev for ev in trace if ev[0] in ('open-r', 'open-w', 'write', 'unlink', 'makedirs') and is_cache(ev[1])]
+			io = [ev for ev in trace if ev[0] in ('open-r', 'open-w', 'write', 'unlink') and is_cache(ev[1])]  # (creating the directory is not a cache file access)
 			if io:
 				self.violation('disabled-cache-io', i, {'events': io[:6], 'n': len(io)}, sig=io[0][0])
 		else:
@@ -207,7 +207,7 @@ class C05(Engine):
 				pre = [] if stage == 'cold' else [op_run(), {'op': 'edit', 'm': leaf, 'v': 1, 'dt': 10**9}]
 				combos = [(nth, kind, km) for nth in range(n) for kind, km in ([('crash@write', k) for k in kmodes] + [('crash@write+zeros', 'half'), ('crash@open', '0')])]
 				if getattr(self, 'tier', 'quick') == 'quick':
-					step = max(1, len(combos) // 12)
+					step = max(1, len(combos) // 6)
 					combos = combos[which::step]
 				for nth, kind, km in combos:
 					cases.append({'pool': pool, 'kind': 'enumeration', 'ops': pre + [op_run(fault={'kind': kind, 'nth': nth, 'kmode': km}), op_run()]})
